@@ -39,7 +39,7 @@ type panicOut struct {
 	Site  string `json:"site"`
 }
 
-var frameRe = regexp.MustCompile(`(?m)^(github\.com/xinchentechnote/fin-protoc/internal/[^\n(]+)\(.*\n\t[^\n]*/internal/([a-z]+/[a-z_]+\.go):(\d+)`)
+var frameRe = regexp.MustCompile(`(?m)^github\.com/xinchentechnote/fin-protoc/internal/([^\n]+?)\([^\n]*\)\n\t[^\n]*/internal/([a-z]+/[a-z_]+\.go):(\d+)`)
 
 func mkPanic(p *verifapi.PanicInfo) *panicOut {
 	if p == nil {
@@ -51,6 +51,7 @@ func mkPanic(p *verifapi.PanicInfo) *panicOut {
 		if i := strings.LastIndex(fn, "/"); i >= 0 {
 			fn = fn[i+1:]
 		}
+		fn = strings.NewReplacer("(*", "", ")", "").Replace(fn)
 		site = m[2] + ":" + fn
 	}
 	st := p.Stack
@@ -144,6 +145,10 @@ func doCompile(r *req) map[string]interface{} {
 				res["parsed"] = hh != nil
 			}
 			if hh == nil {
+				break
+			}
+			if first && len(diags) > 0 {
+				// the CLI refuses to generate when the model carries diagnostics; mirror it
 				break
 			}
 			h = hh
